@@ -5,6 +5,7 @@ SPEC = {
                    "2": "eval_ref / needed_failures (Gql/Ref.v) vs Execute",
                    "3": "model cannot parse the query / out of fuel / query or data does not fit the schema",
                    "4": "model: eval_ref (parse q) differs from eval_ref (parse (prune q))",
+                   "6": "the selection-set identifiers the harness assigned do not satisfy ids_wf",
                    "5": "envelopes on the socket vs Gql/Envelope.v subscribe_initial"},
     "corr_name": "Gql (eval_ref, needed_failures, work-unit machine with errorRecorder and nest_path, Envelope) vs Execute and the websocket connection",
     "coq_modules": ["Gql.Check", "Gql.Envelope"],
